@@ -88,6 +88,18 @@ Section PayProofProofs.
     exists pp, s, k, ks, o. rewrite He. cbn [hd_error]. repeat split; try assumption; reflexivity.
   Qed.
 
+  (** whatever state the reply is labelled with: a context for which a proof was requested is
+      only ever finalized by a reply in the standard send's state *)
+  Theorem finalize_with_proof_only_standard (w : wallet) (r : slate) (c : ctxrec) i w' t :
+    lookup_ctx pk esig w (sl_id r) = Some c -> cx_pp_index c = Some i ->
+    finalize_tx w r = (w', Ok t) -> sl_state r = StS2.
+  Proof.
+    intros Hl Hi H. unfold Proto.finalize_tx in H. rewrite Hl in H.
+    destruct (check_ttl pk esig w r); try (inversion H; discriminate).
+    destruct (sl_state r); try (inversion H; discriminate); [reflexivity|].
+    rewrite Hi in H. inversion H; discriminate.
+  Qed.
+
   Theorem finalize_requires_proof (w : wallet) (r : slate) (c : ctxrec) i w' t :
     lookup_ctx pk esig w (sl_id r) = Some c -> sl_state r = StS2 -> cx_pp_index c = Some i ->
     finalize_tx w r = (w', Ok t) ->
